@@ -37,6 +37,10 @@ ASSUMPTIONS = [
     "value-info content and tensor payloads are opaque tokens in the model; operator identity, non-graph "
     "attributes, metadata, functions and device configurations are compared by the oracle only",
     "graphs nest as a tree (a Graph object shared between two attributes is outside the model)",
+    "the oracle's gate (serializable_reason) also admits a nested graph that shadows a name of an enclosing "
+    "graph when every reference still resolves innermost-first to the referenced value; the hypothesis of "
+    "C03_roundtrip (names unique per scope chain) excludes shadowing, so those models are covered by the "
+    "model-vs-code comparison and the isomorphism oracle only",
     "accepted normalisations of the round trip: '' == None for doc/model strings, trailing empty-named "
     "outputs, Node.version / meta / nested opset_imports / function graph names are IR-only, a "
     "non-input initializer without type/shape receives them from its tensor, a shape without a type "
@@ -371,6 +375,20 @@ class IRGen:
             self.graphs = saved + sub
             f = ir.Function(rng.choice(["custom", "f.dom"]), self.fresh("fn"), rng.choice(["", "", "ov1"]), graph=fg,
                             attributes=[ir.AttrInt64("fa", 1), ir.Attr("fb", ir.AttributeType.INT, None)])
+            # names containing the separators of the IR<10 "domain::name/value" value-info names (D106);
+            # a separate generator so that the main stream (and the recorded gen_seed cases) is unchanged
+            rng2 = random.Random(f"sep-{self.k}-{len(functions)}")
+            if rng2.random() < 0.2:
+                for v in list(fg.inputs) + [o for n in fg for o in n.outputs]:
+                    if v.name and rng2.random() < 0.5:
+                        v.name = rng2.choice(["/blk/", "s::", "/"]) + v.name
+                self.note("function_value_names_with_separators")
+            if rng2.random() < 0.1:
+                f.domain = rng2.choice(["a/b", "a::b", "a:"])
+                self.note("function_domain_with_separators")
+            if rng2.random() < 0.05:
+                f.name = rng2.choice(["x/", "x::"]) + f.name
+                self.note("function_name_with_separators")
             functions.append(f)
             main.append(ir.Node(f.domain, f.name, self.pick_inputs(self.visible(main, []), len(fg.inputs)),
                                 overload=f.overload, num_outputs=max(1, len(fg.outputs)), name=self.fresh("call")))
@@ -384,7 +402,34 @@ class IRGen:
             self.device_configs(m)
         for _ in range(rng.choice([0, 1, 2, 4, 8, 16])):
             self.edit(m)
+        self.shadow(m)
         return m
+
+    def shadow(self, m):
+        """a nested graph re-defines a name of an enclosing graph (separate stream: recorded gen_seeds
+        unchanged); references keep pointing to the objects, so the model stays serializable exactly when
+        no reference to the outer value sits below the shadowing definition"""
+        rng2 = random.Random(f"shadow-{self.k}")
+        if rng2.random() >= 0.25:
+            return
+        nested = [(g, outer) for g, outer in self.graphs if outer]
+        for g, outer in rng2.sample(nested, k=min(len(nested), rng2.randrange(1, 3))):
+            inner = list(g.inputs) + [o for n in g for o in n.outputs if o.name]
+            used = [v for v in inner if v.uses()]
+            targets = [v for v in outer if v.name]
+            if not inner or not targets:
+                continue
+            below = {id(v) for n in g.all_nodes() for v in n.inputs if v is not None}
+            free = [v for v in targets if id(v) not in below]
+            b = rng2.choice(free if free and rng2.random() < 0.8 else targets)
+            a = rng2.choice(used if used and rng2.random() < 0.8 else inner)
+            if a is b:
+                continue
+            try:
+                a.name = b.name
+                self.note("shadowing")
+            except (ValueError, TypeError):
+                self.note("edit_rejected")
 
     def device_configs(self, m):
         rng = self.rng
@@ -397,6 +442,19 @@ class IRGen:
                 vals = [v for v in list(n.inputs) + list(n.outputs) if v is not None]
                 if vals and rng.random() < 0.7:
                     n.shard(rng.choice(vals), configuration=cfg, axis=0, num_shards=2, device_indices=[0, 1])
+            # nodes of nested graphs and of functions as well (separate stream: recorded gen_seeds unchanged)
+            rng2 = random.Random(f"dc-{self.k}")
+            nested = [n for n in m.graph.all_nodes() if n.graph is not m.graph]
+            for f in m.functions.values():
+                nested.extend(f.all_nodes())
+            nested = [n for n in nested if len(n.outputs) or len(n.inputs)]
+            for n in rng2.sample(nested, k=min(len(nested), rng2.randrange(0, 3))):
+                if rng2.random() < 0.6:
+                    n.set_pipeline_stage(cfg, rng2.randrange(3))
+                vals = [v for v in list(n.inputs) + list(n.outputs) if v is not None]
+                if vals and rng2.random() < 0.6:
+                    n.shard(rng2.choice(vals), configuration=cfg, axis=0, num_shards=2, device_indices=[0, 1])
+                self.note("device_configuration_nested")
             self.note("device_configuration")
         except (ValueError, TypeError, IndexError):
             self.note("device_configuration_rejected")
@@ -413,6 +471,24 @@ def _strip_experimental(gp: dict) -> dict:
     gp = dict(gp)
     gp["vinfo"] = [v for v in gp["vinfo"] if not ("::" in v[0] and "/" in v[0])]
     return gp
+
+
+def _metadata_merge_names(g: onnx.GraphProto) -> set:
+    """names that have, in one graph of the tree, an entry with metadata_props and another entry
+    (input / output / value_info) for the same name"""
+    res: set = set()
+    entries = list(g.input) + list(g.output) + list(g.value_info)
+    with_meta = {e.name for e in entries if len(e.metadata_props)}
+    for name in with_meta:
+        if sum(1 for e in entries if e.name == name) > 1:
+            res.add(name)
+    for n in g.node:
+        for a in n.attribute:
+            if a.HasField("g"):
+                res |= _metadata_merge_names(a.g)
+            for s in a.graphs:
+                res |= _metadata_merge_names(s)
+    return res
 
 
 def run_case(part, gen_seed: int, p_odd: float, lean_reqs: list, pending: list) -> None:
@@ -488,6 +564,12 @@ def run_case(part, gen_seed: int, p_odd: float, lean_reqs: list, pending: list) 
 
                     where = re.sub(r"\[[^\]]*\]", "", where)
                     where = re.sub(r"value '.*", "value", where)
+                    if model.ir_version < 10 and where.startswith("function") and any(
+                        "/" in ident or "::" in ident
+                        for f in model.functions.values()
+                        for ident in [f.domain, f.name] + [v.name or "" for v in list(f.inputs) + [o for n in f for o in n.outputs]]
+                    ):
+                        where = "ir9-function-value-info-unparseable-name"  # D106
                     part.fail("roundtrip:not-isomorphic:" + where[-60:], mm[:300], case)
                 bad = sc.check_consistency(sc.model_graphs(m2))
                 if bad:
@@ -511,7 +593,9 @@ def diff_case(part, out: dict, case, flags, world0, model, p1, err, m2) -> None:
         core = None
     if core is not None and bool(out.get("serializable")) != core:
         part.disagree("Serializable: Lean predicate and harness predicate differ", case, out.get("serializable"), core)
-    if sc.serializable_reason(model) is None and sc.info_core(model.graph) and not out.get("serializable"):
+    notes: list = []
+    if (sc.serializable_reason(model, notes) is None and not notes and sc.info_core(model.graph)
+            and not out.get("serializable")):
         part.disagree("oracle gate accepts a model outside the hypothesis of C03_roundtrip", case,
                       out.get("serializable"), "serializable_reason=None")
     part.count(f"lean_serializable={out.get('serializable')}")
@@ -559,6 +643,15 @@ def diff_case(part, out: dict, case, flags, world0, model, p1, err, m2) -> None:
         except sc.OutsideModel:
             return
         mod2 = sc.canon_world(out["world2"])
+        risky = _metadata_merge_names(p1.graph)
+        if risky:
+            # the real code merges the metadata of several entries for one name (value_info + output, ...),
+            # the model's documentation token is replaced as a whole: not comparable for these names
+            part.count("lenient_metadata_merge")
+            for w in (real2, mod2):
+                for c in w["vals"]:
+                    if c["name"] in risky:
+                        c["info"] = [c["info"][0], c["info"][1], None]
         if real2 != mod2:
             what = "deserialize(serialize w) differs"
             for k in ("root", "tens", "vals"):
@@ -595,19 +688,28 @@ def run(ctx: Ctx) -> None:
     for obj in load_corpus("C03"):
         replay(ctx, obj)
     shards = 16
-    n = ctx.pick(2400, 24000) // shards
+    n = ctx.pick(2400, 120000) // shards
     seeds = [ctx.rng.randrange(2**62) for _ in range(shards)]
     for part in pmap(_worker, [(s, n) for s in seeds]):
         ctx.merge(part)
 
 
+def _replay_cases(obj: dict) -> list:
+    """the case of a corpus line / failing-input replay, or the cases of the recorded correspondence
+    disagreements of an unchecked-obligation replay"""
+    if obj.get("case"):
+        return [obj["case"]]
+    ds = [d["case"] for d in obj.get("correspondence_disagreements") or [] if isinstance(d, dict) and d.get("case")]
+    return ds or [obj]
+
+
 def replay(ctx: Ctx, obj: dict) -> None:
     _quiet()
-    case = obj.get("case", obj)
     part = Part()
     reqs: list = []
     pending: list = []
-    run_case(part, case["gen_seed"], case["p_odd"], reqs, pending)
+    for case in _replay_cases(obj):
+        run_case(part, case["gen_seed"], case["p_odd"], reqs, pending)
     for out, p in zip(lean_batch(reqs), pending):
         diff_case(part, out, *p)
     ctx.merge(part)
